@@ -630,8 +630,8 @@ package gts
 //@   ensures after: forall k in P(0)+1..len(out): out[k] == old(ff[k-1])
 //@   ensures source_block: forall k in 0..P(0): f.Key == "source" ==> old(ff[k]).Key == "source"
 //@   ensures source_first: f.Key != "source" ==> (forall k in 0..len(ff): (forall j in 0..k+1: old(ff[j]).Key == "source") ==> k < P(0))
-//@   ensures local_order: f.Key != "source" ==> (P(0) == len(ff) || locLess(f.Loc, old(ff[P(0)]).Loc)) &&
-//@      (P(0) == 0 || old(ff[P(0)-1]).Key == "source" || !locLess(f.Loc, old(ff[P(0)-1]).Loc))
+//@   ensures order_next: f.Key != "source" && P(0) < len(ff) ==> locLess(f.Loc, old(ff[P(0)]).Loc)
+//@   ensures order_prev: f.Key != "source" && P(0) > 0 && old(ff[P(0)-1]).Key != "source" ==> !locLess(f.Loc, old(ff[P(0)-1]).Loc)
 //@   assigns nothing
 //@   loop 1: invariant 0 <= i && i <= len(ff) && (forall k in 0..i: ff[k].Key == "source")
 //@   loop 1: decreases len(ff) - i
